@@ -1223,6 +1223,21 @@ func c09R7(p *core.Program, r *core.Report) {
 		}
 		r.Check(bad == "", rule, f, "IsNil does not consume what Frag renders", f.Node().Pos(), "no iteration of a single-use receiver",
 			"IsNil "+bad+": every rendering path asks IsNil before Frag, so the parts consumed by the probe are missing from the output of a one-shot sequence")
+		// ... and answers true only for a snippet that holds nothing: it tests the receiver (or a field of it) against the
+		// empty string / nil / length zero and computes nothing else - text that is "blank" or "looks empty" is still text
+		ff := flatten(p, f)
+		ffinfo := ff.Info()
+		extra := ""
+		for _, c := range core.Calls(ff.Body, true) {
+			if name := core.CalleeName(ffinfo, c); name != "builtin.len" {
+				if tv, isConv := ffinfo.Types[c.Fun]; isConv && tv.IsType() {
+					continue
+				}
+				extra = core.ExprStr(c)
+			}
+		}
+		r.Check(extra == "", rule, f, "IsNil is a plain emptiness test", f.Node().Pos(), "compares the receiver's text / value with empty, nil or length zero, calls nothing",
+			"IsNil decides on `"+extra+"`: a snippet that holds text (blanks only, say a struct tag of one space) is dropped by every renderer that asks IsNil first, so not every character of it is preserved")
 	}
 	if nIsNil == 0 {
 		r.Anchor(rule, "IsNil methods of pkg/gengo/snippet")
